@@ -1,9 +1,15 @@
 #!/bin/bash
-# Builds the whole framework offline from files on disk. Idempotent.
+# Builds the framework offline from files on disk (idempotent): the shared lib and the monitor
+# binary of every check registered in tools/checks.json.  A monitor that is not registered is not
+# built here (./check builds on demand).
 set -u
 cd "$(dirname "$0")"
 export CARGO_NET_OFFLINE=true
 export CARGO_TARGET_DIR="$PWD/.build"
 mkdir -p .build/logs evidence
-( cd harness && cargo build --release --offline --bins 2>&1 | tail -5 ) || exit 1
+BINS=$(python3 -c "import json;print(' '.join('--bin '+c['id'].lower() for c in json.load(open('tools/checks.json'))['checks']))")
+( cd harness && cargo build --release --offline -p vmon $BINS 2>&1 | tail -3 )
+rc=${PIPESTATUS[0]}
+for s in tools/build_*.sh; do [ -x "$s" ] && { echo "[setup] $s"; "$s" || echo "[setup] $s failed (engine will be reported inconclusive)"; }; done
 echo "setup done"
+exit 0
